@@ -109,6 +109,16 @@ Theorem C12_deletes_after_renames : forall b ro dl rf df tf i j o1 o2,
 Proof. exact deletes_after_renames. Qed.
 Print Assumptions C12_deletes_after_renames.
 
+(** (4') With the orphan removal phase in front: the only removals that precede an install rename are those of the orphan
+    phase itself (sidecars without shard, which no loader reads). *)
+Theorem C12_deletes_after_renames_with_orphans : forall b po pf ro dl rf df tf i j o1 o2,
+  (forall a, In a ro -> In a (artifacts b)) ->
+  nth_error (finish_ops_o b po pf ro dl rf df tf) i = Some o1 -> is_removal o1 = true ->
+  nth_error (finish_ops_o b po pf ro dl rf df tf) j = Some o2 -> is_install_rename o2 = true ->
+  j < i \/ In o1 (orphan_ops po pf).
+Proof. exact deletes_after_renames_orphans. Qed.
+Print Assumptions C12_deletes_after_renames_with_orphans.
+
 (** (5) A mix can only be observed strictly inside the install window: killed at or before the first rename the view
     is the old index, after the last operation it is the new one. *)
 Theorem C12_mix_only_inside_install_window : forall b w ro dl k,
